@@ -142,6 +142,11 @@ pub struct WorldCfg {
     /// one's followed by one more character (the host numbers contracts: contract5 ... contract50)
     #[serde(default)]
     pub prefix_vamms: bool,
+    /// deploy a second insurance fund for the same engine (same owner, no vAMM registered) holding this balance: the
+    /// owner can move the engine over to it ("@if2"; "@if1" is the first one, "@if" the one the engine is configured
+    /// with according to the history of accepted calls)
+    #[serde(default, with = "oustr")]
+    pub spare_if: Option<U>,
 }
 
 impl WorldCfg {
